@@ -8,6 +8,11 @@ with and without INTLABEL / a structure instantiation, EQU/SET lines, references
 branches of one construct; after the construct every symbol is probed (IFDEF / IFNDEF / DEFINED() / SYMTYPE() / SWITCH
 DEFINED() emitting the symbol's value or FFFF, IFUSED / IFNUSED) - only the symbols of selected leaves may exist; arbitrary (mostly ill-formed) statement streams run one per file because they leave constructs
 open (leaves are `message "<marker>"` because asl deletes the code file when an error was reported).
+Ways a pass can end (`end_streams`): the text of a skeleton cut at any point (constructs left open at the end of the file), END
+lines (plain, with entry point, issued by a macro / a nested macro / a REPT body, issued inside a conditional that the macro
+itself opened) put at any point - in selected and in skipped branches, at any depth, followed by nothing, by the rest of the
+skeleton or by arbitrary statements; the SPEC (`AssembledAt`, `OpenAtEnd`) says which END ends the pass and that whatever is open
+there is an error; the MODEL is `runL`/`passL`.
 """
 import itertools
 import json
@@ -47,7 +52,14 @@ SEL3\tequ 3
     "lvi\tmacro PM,{INTLABEL}\n\tdb PM\n\tendm\n"
     "lvj\tmacro PM,{INTLABEL},{GLOBALSYMBOLS}\n__LABEL__:\tdb PM\n\tendm\n"
     "lvk\tmacro PM,{INTLABEL}\n__LABEL__:\tdb PM\n\tendm\n"
-    "srec\tstruct\nfa\tds 1\nsrec\tendstruct\n")
+    "srec\tstruct\nfa\tds 1\nsrec\tendstruct\n"
+    # lines that issue END: from a macro body, from a macro called by a macro, inside a conditional the macro itself opens
+    # (selected: the construct stays open; not selected: no END at all); 238 would be a statement behind the END
+    "fin\tmacro\n\tend\n\tmessage \"238\"\n\tendm\n"
+    "finw\tmacro\n\tfin\n\tmessage \"238\"\n\tendm\n"
+    "finc\tmacro\n\tif T1\n\tend\n\tendif\n\tmessage \"238\"\n\tendm\n"
+    "fins\tmacro\n\tswitch SEL3\n\tcase 3\n\tend\n\tendcase\n\tmessage \"238\"\n\tendm\n"
+    "fine\tmacro\n\tif F0\n\tend\n\tendif\n\tendm\n")
 HEADER_LINES = HEADER.count("\n")
 LEAF_MACROS = ["lva", "lvb", "lvc", "lvd", "lve"]
 
@@ -471,6 +483,112 @@ def rand_stream(rng):
     return st[:40]
 
 
+
+# ----------------------------------------------------------------------------------------------
+# the ways a pass can end
+
+# a line that issues END: how -> asm spellings
+END_PLAIN = {
+    "d": ["\tend", "\tEND", " end"],
+    "a": ["\tend 16", "\tend T1"],
+    "m": ["\tfin"],
+    "w": ["\tfinw"],
+    "r": ["\trept 2\n\tend\n\tmessage \"238\"\n\tendm", "\trept 1\n\tend\n\tendm\n\tmessage \"238\"",
+          "\tirp PX,5,6\n\tend\n\tmessage \"238\"\n\tendm", "\trept 2\n\tfin\n\tendm"],
+}
+# calls of macros that open conditionals of their own around the END (the statements of the body are the tokens; the call is
+# one line).  Only where nothing is open, i.e. where the call is certainly expanded.
+END_TOP = {
+    "c": [("I1:e1", ""), ("Z:c", "\tfinc")],
+    "s": [("S1:i3", ""), ("C:i3", ""), ("Z:s", "\tfins")],
+    "e": [("I1:e0", ""), ("Z:e", "\tfine"), ("EN0", "")],
+}
+
+
+def end_line(rng, depth):
+    """-> list of (token, asm) for one END-issuing line at a place where `depth` constructs are open"""
+    if depth == 0 and rng.random() < 0.3:
+        return list(END_TOP[rng.choice("cse")])
+    how = rng.choice("dddamwr")
+    return [("Z:" + how, rng.choice(END_PLAIN[how]))]
+
+
+def depths(st):
+    """number of open constructs in front of every position 0..len(st) of a skeleton's statement list"""
+    d, res = 0, [0]
+    for t, _ in st:
+        if t[0] in "IS":
+            d += 1
+        elif t.startswith("EN") or t.startswith("ED"):
+            d -= 1
+        res.append(d)
+    return res
+
+
+def with_ends(rng, st, positions, cut=None, groups=False):
+    """statement list `st` (cut behind position `cut`) with END lines put at `positions`; groups=True: list of source lines
+    (each a list of statements)"""
+    dp = depths(st)
+    out = []
+    for i in range(len(st) + 1):
+        if cut is not None and i > cut:
+            break
+        for _ in range(positions.count(i)):
+            out.append(end_line(rng, dp[i]))
+        if i < len(st) and (cut is None or i < cut):
+            out.append([st[i]])
+    return out if groups else [x for g in out for x in g]
+
+
+def end_streams(rng, thorough, dist):
+    """-> list of (tag, toks, asm)"""
+    res = []
+
+    def add(tag, st):
+        if len(st) > 70:
+            return
+        toks, asm, _ = number_leaves(st)
+        res.append((tag, toks, asm))
+        dist[tag.split(":")[0]] = dist.get(tag.split(":")[0], 0) + 1
+
+    # every depth-1 construct (and, sampled, depth 2), every point of its text: END there with the rest of the text behind it,
+    # END there and nothing behind, the text simply ending there
+    blocks = [[("leaf",), c, ("leaf",)] for c in b1_constructs()]
+    b1 = b1_constructs()
+    for _ in range(400 if thorough else 25):
+        p = rng.choice(b1)
+        blocks.append([with_child(p, rng.randrange(slots(p)), rng.choice(b1)), ("leaf",)])
+    for blk in blocks:
+        st = flatten(rng, blk, [])
+        for k in range(len(st) + 1):
+            add("end_exh_rest", with_ends(rng, st, [k]))
+            if thorough or rng.random() < 0.5:
+                add("end_exh_cutend", with_ends(rng, st, [k], cut=k))
+            if thorough or rng.random() < 0.25:
+                add("end_exh_cut", with_ends(rng, st, [], cut=k))
+    # random skeletons: cut or not, several END lines anywhere, arbitrary statements behind, a stray statement somewhere
+    for i in range(12000 if thorough else 450):
+        d = rng.choice([1, 2, 2, 3])
+        blk = rand_block(rng, d, rng.choice([3, 4, 5]))
+        if depth_of(blk) == 0:
+            blk = blk + [rand_construct(rng, d - 1, 4)]
+        st = flatten(rng, blk, [])
+        cut = rng.randrange(len(st) + 1) if rng.random() < 0.5 else None
+        hi = len(st) if cut is None else cut
+        pos = [rng.randrange(hi + 1) for _ in range(rng.choice([0, 1, 1, 1, 2, 3]))]
+        if cut is not None and rng.random() < 0.5:
+            pos.append(cut)
+        out = with_ends(rng, st, pos, cut, groups=True)
+        if rng.random() < 0.3:
+            out.extend([rng.choice(ALPHABET)] for _ in range(rng.choice([1, 2, 3])))
+        if rng.random() < 0.15:
+            # a stray statement (not in front of a macro call whose body is spelled out as statements: it may switch assembly off there)
+            lo = max([i + 1 for i, g in enumerate(out) if len(g) > 1] + [0])
+            out.insert(rng.randrange(lo, len(out) + 1), [rng.choice(ALPHABET)])
+        add("end_rand", [x for g in out for x in g] or [("L", None)])
+    return res
+
+
 # ----------------------------------------------------------------------------------------------
 # running the real assembler
 
@@ -660,7 +778,7 @@ def run(args):
     dist = dict(E1=0, E2nest=0, E2seq=0, sampled=0, stream_exh=0, stream_rand=0, corpus=0,
                 ladders=0, switches=0, ifb=0, sym=0, depth={}, wellnested_streams=0, illnested_streams=0,
                 predicted_crash=0, err_numbers={}, packs=0, solo_runs=0, leaf_kinds={}, shared_labels=0, symbol_probes=0,
-                symbols_found_defined=0, symbols_found_undefined=0)
+                symbols_found_defined=0, symbols_found_undefined=0, pass_end={}, end_spelling={})
     distinct = set()
     evaluations = 0
 
@@ -821,6 +939,8 @@ def run(args):
             streams.append(("stream_rand:%d" % i, toks, asm))
             dist["stream_rand"] += 1
 
+        streams.extend(end_streams(rng, thorough, dist))
+
         def do_solo(it):
             i, (tag, toks, asm) = it
             return run_solo(bdir, wd, "s%d" % i, asm)
@@ -838,6 +958,14 @@ def run(args):
             dist["wellnested_streams" if k.get("wn") == "1" else "illnested_streams"] += 1
             if k.get("mcrash") == "1":
                 dist["predicted_crash"] += 1
+            if "ends" in k:
+                # how the pass ended according to the SPEC: by an END / at the end of the text / not determined; constructs open there
+                how = "undetermined" if k["cons"] == "?" else ("by_END" if k["endeff"] == "1" else "END_lines_all_skipped")
+                key = "%s,open=%s" % (how, k["open"] if k["open"] in ("0", "x") else ("1" if k["open"] == "1" else "2+"))
+                dist["pass_end"][key] = dist["pass_end"].get(key, 0) + 1
+                for t in toks:
+                    if t[0] == "Z":
+                        dist["end_spelling"][t[2:]] = dist["end_spelling"].get(t[2:], 0) + 1
             for e in o.split(";")[1].split(","):
                 if e != "-":
                     dist["err_numbers"][e] = dist["err_numbers"].get(e, 0) + 1
@@ -846,7 +974,8 @@ def run(args):
                 spec_fail.append(d)
             elif kind == "corr":
                 corr_fail.append(d)
-            if nstream_samples < 2 and tag.startswith("stream_rand") and k.get("wn") == "0" and kind is None:
+            if (nstream_samples < 2 and tag.startswith("stream_rand") and k.get("wn") == "0" and kind is None) or (
+                    nstream_samples < 4 and tag.startswith("end_rand") and k.get("endeff") == "1" and k.get("open") not in ("0", "x") and kind is None):
                 nstream_samples += 1
                 samples.append(dict(tag=tag, source=src[len(HEADER):][:500], observed=o, verdict=ans[:300]))
 
@@ -868,13 +997,14 @@ def run(args):
         "symbols: after each packed skeleton every symbol its leaves are about is probed (IFDEF/IFNDEF/DEFINED()/SYMTYPE()/SWITCH DEFINED(): value or FFFF; IFUSED/IFNUSED); the set found defined / referenced is compared with Spec `definedBy (selB b)` / `usedBy (selB b)` and with the model's definition / reference events, label values with the address of the leaf's own code"])
     res.coverage.update(
         evaluations=evaluations, distinct_nontrivial=len([t for t in distinct if t.count(" ") >= 1]),
-        exhaustive=False, exhaustive_part="all skeletons of <= 2 constructs (IF ladder with <= 2 ELSEIF + optional ELSE, SWITCH with <= 2 CASE + optional ELSECASE), nested or in sequence, x all condition vectors; all statement streams of length <= %d over a %d-letter alphabet" % (3 if thorough else 2, len(ALPHABET)),
+        exhaustive=False, exhaustive_part="all skeletons of <= 2 constructs (IF ladder with <= 2 ELSEIF + optional ELSE, SWITCH with <= 2 CASE + optional ELSECASE), nested or in sequence, x all condition vectors; all statement streams of length <= %d over a %d-letter alphabet; every depth-1 construct x every point of its text x an END line there (rest of the text behind it)" % (3 if thorough else 2, len(ALPHABET)),
         rule="a case = one skeleton (with the symbol kinds of its leaves) or one statement stream with its condition values; distinct by driver token list; non-trivial = at least two statements",
         samples=samples, distribution=dist, calibrated_cfg=dict(ifbStride=stride, elsecaseNullCrash=crash, deadSwitchWarns=deadwarn))
     res.assumptions = [
         "float selector values are the exactly representable k/4; equality of doubles on them is equality of k",
         "leaves of one-per-file streams are `message` lines (asl deletes the code file when an error was reported)",
         "IF/ELSEIF expressions are evaluated correctly by the expression evaluator (C08's subject): only trivially true/false spellings are used",
+        "a line that issues END is `end` / `end <entry point>` / a call of a macro (directly or through another macro) or a REPT whose body issues it; the model treats all of them as 'reading stops here' (as.c flushes the running expansions without assembling them)",
         "leaves about symbols occur in the packed well-formed skeletons only (ill-formed streams keep plain leaves); labels stand in front of ordinary lines, not in front of the IF/ELSE/ENDIF/SWITCH/CASE lines themselves",
         "the symbol probes are themselves conditional statements (live, depth 1) and use IFDEF/DEFINED/SYMTYPE/IFUSED as the observation of the symbol table"]
     return common.conclude(res, proof_problems, spec_fail, corr_fail, evaluations)
